@@ -87,6 +87,8 @@ func probeMachine(c *cpu.CPU6502, cfg *emuconfig.Config) string {
 	return fmt.Sprintf("isa=%s mem=%s mul=%s div=%s ports=%s", isa.String(), memsig, mul, div, ps)
 }
 
+var handWritten = 0
+
 func configCase(model, memSpec, asm string, ioMask uint8, io map[uint8]string, flags uint8, base uint16) string {
 	cfg := emuconfig.DefaultConfig()
 	cfg.Model, cfg.MemSpec, cfg.AsmType = model, memSpec, asm
@@ -95,6 +97,40 @@ func configCase(model, memSpec, asm string, ioMask uint8, io map[uint8]string, f
 	file := filepath.Join(tmpDir(), "config.json")
 	if err := cfg.Save(file); err != nil {
 		panic(err)
+	}
+	handWritten++
+	if handWritten%2 == 0 {
+		// every second file is written BY HAND with the key names of the README (not by Config.Save, which would follow
+		// any change of the struct's JSON mapping); a key whose value is the empty string is left out altogether
+		var b strings.Builder
+		b.WriteString("{\n")
+		kv := func(k, v string) {
+			if v != "" {
+				fmt.Fprintf(&b, "    %q: %q,\n", k, v)
+			}
+		}
+		kv("Model", model)
+		kv("MemSpec", memSpec)
+		fmt.Fprintf(&b, "    \"IoMask\": %d,\n    \"IoAddrConfig\": {", ioMask)
+		ks := []int{}
+		for k := range io {
+			ks = append(ks, int(k))
+		}
+		sort.Ints(ks)
+		for i, k := range ks {
+			if i > 0 {
+				b.WriteString(", ")
+			}
+			fmt.Fprintf(&b, "\"%d\": %q", k, io[uint8(k)])
+		}
+		b.WriteString("},\n    \"PreLoad\": {},\n")
+		fmt.Fprintf(&b, "    \"F256MCoprocFlags\": %d,\n    \"F256MCoprocBase\": %d,\n", flags, base)
+		kv("AsmType", asm)
+		b.WriteString("    \"AcmeBinary\": \"acme\",\n    \"AcmeSrcDir\": \"./\",\n    \"AcmeBinDir\": \"./test/bin\",\n    \"AcmeTestDir\": \"./test\"\n}\n")
+		if err := os.WriteFile(file, []byte(b.String()), 0600); err != nil {
+			panic(err)
+		}
+		count("config.handwritten")
 	}
 	keys := []int{}
 	for k := range io {
